@@ -29,6 +29,13 @@ type Scope struct {
 	Full    bool             // every height 0..tip+2 and every hash ever written
 	Hashes  []chainhash.Hash // (partial) hashes the last operation touched
 	Heights []uint32         // (partial) heights the last operation touched
+	// Unjudged names a store (TBlockFile / TFilterFile) whose reads BEYOND
+	// its tip are not judged in this comparison: the state between an append
+	// that failed under a double fault (its clean-up failed as well) and the
+	// next reopen, where bytes nobody could remove are still in the file.
+	// Everything at or below the tips, every hash lookup of a block at or
+	// below them, ancestors and locators are judged as always.
+	Unjudged string
 }
 
 // Compare reads every read method of both stores and compares with the
@@ -94,7 +101,7 @@ func Compare(st *Stores, m *Model, ever []chainhash.Hash, sc Scope, rng *rand.Ra
 			return mm("block-by-height", "height %d (tip %d): error %v", i, btip, err)
 		case i <= btip && !SameHeader(got, &m.Blocks[i]):
 			return mm("block-by-height", "height %d (tip %d): got %s want %s", i, btip, got.BlockHash(), m.Hashes[i])
-		case i > btip && err == nil:
+		case i > btip && err == nil && sc.Unjudged != TBlockFile:
 			return mm("block-by-height-beyond-tip", "height %d beyond tip %d returned %s", i, btip, got.BlockHash())
 		}
 		fg, err := st.FS.FetchHeaderByHeight(i)
@@ -104,7 +111,7 @@ func Compare(st *Stores, m *Model, ever []chainhash.Hash, sc Scope, rng *rand.Ra
 			return mm("filter-by-height", "height %d (tip %d): error %v", i, ftip, err)
 		case i <= ftip && *fg != m.Filters[i]:
 			return mm("filter-by-height", "height %d (tip %d): got %s want %s", i, ftip, fg, m.Filters[i])
-		case i > ftip && err == nil:
+		case i > ftip && err == nil && sc.Unjudged != TFilterFile:
 			return mm("filter-by-height-beyond-tip", "height %d beyond tip %d returned %s", i, ftip, fg)
 		}
 	}
@@ -155,7 +162,7 @@ func Compare(st *Stores, m *Model, ever []chainhash.Hash, sc Scope, rng *rand.Ra
 			if *fg != m.Filters[want] {
 				return mm("filter-by-hash", "block at height %d: got %s want %s", want, fg, m.Filters[want])
 			}
-		case live && err == nil:
+		case live && err == nil && sc.Unjudged != TFilterFile:
 			return mm("filter-by-hash-beyond-tip", "block at height %d beyond filter tip %d returned %s", want, ftip, fg)
 		case !live && err == nil:
 			return mm("filter-rolled-back-hash-found", "rolled-back block hash %s still yields filter header %s", hash, fg)
